@@ -21,13 +21,8 @@ func TestVerifC13Race(t *testing.T) {
 	part := explore.Part{Name: "handshake-race-pass"}
 	part.Run = func(e explore.Env) *explore.Report {
 		var cfgs []c13Config
-		for si, sc := range c13Scenarios {
-			kinds := []string{"plain", "chrome115"}
-			switch sc {
-			case "resume", "0rtt-accept", "0rtt-reject":
-				kinds = []string{"plain"}
-			}
-			for _, k := range kinds {
+		for si := range c13Scenarios {
+			for _, k := range c13KindsFor(si) {
 				base := c13Config{Scenario: si, Kind: k, Seed: uint64(e.Seed) + 21}
 				cfgs = append(cfgs, base)
 				for _, m := range sim.AllFaultMaps([2]int{6, 6}, []sim.Fate{sim.Drop, sim.Dup, sim.Delay}, 1) {
